@@ -59,28 +59,33 @@ structure StrtoRes where
 
 def isX (c : Byte) : Bool := c == 0x78 || c == 0x58
 
+/-- optional sign -/
+def splitSign (s : Str) : Bool × Str :=
+  match s with
+  | c :: r => if c == 0x2D then (true, r) else if c == 0x2B then (false, r) else (false, s)
+  | [] => (false, [])
+
+/-- digits after the sign with base detection: (magnitude, was anything converted) -/
+def strtoBody (s : Str) : Nat × Bool :=
+  match s with
+  | c :: r =>
+    if c == 0x30 then
+      -- a leading 0 is itself a digit, so a conversion is always performed
+      match r with
+      | x :: h :: r' =>
+        if isX x && (digitIn 16 h).isSome then ((readDigits 16 (h :: r') 0 0).1, true)
+        else ((readDigits 8 r 0 0).1, true)
+      | _ => ((readDigits 8 r 0 0).1, true)
+    else
+      let (v, n) := readDigits 10 s 0 0
+      (v, n != 0)
+  | [] => (0, false)
+
 /-- ISO C `strtol`-family scanning with base 0 on unbounded integers. -/
 def strtoCore (s : Str) : StrtoRes :=
-  let s := s.dropWhile isSpace
-  let (neg, s) := match s with
-    | 0x2D :: r => (true, r)
-    | 0x2B :: r => (false, r)
-    | _ => (false, s)
-  match s with
-  | 0x30 :: x :: h :: r =>
-    if isX x && (digitIn 16 h).isSome then
-      let (v, _) := readDigits 16 (h :: r) 0 0
-      ⟨neg, v, true⟩
-    else
-      -- octal: the leading 0 is itself a digit, so a conversion is always performed
-      let (v, _) := readDigits 8 (x :: h :: r) 0 0
-      ⟨neg, v, true⟩
-  | 0x30 :: r =>
-    let (v, _) := readDigits 8 r 0 0
-    ⟨neg, v, true⟩
-  | _ =>
-    let (v, n) := readDigits 10 s 0 0
-    ⟨neg, v, n != 0⟩
+  let (neg, s) := splitSign (s.dropWhile isSpace)
+  let (mag, conv) := strtoBody s
+  ⟨neg, mag, conv⟩
 
 def strtoVal (r : StrtoRes) : Int := if r.neg then -(r.mag : Int) else (r.mag : Int)
 
